@@ -401,7 +401,8 @@ func init() { registerCases("C16", c16Case) }
 func c16Case(run *evid.Run, i int, j *Journal) {
 	rng := rand.New(rand.NewSource(run.Seed*4256233 + int64(i)))
 	h := hx.Gen(run.Seed, i, hx.GenOpts{MaxSteps: pick(run.Tier, 28, 50), Orders: []string{"hash", "default"}, MaxReplicas: 4,
-		Codecs: []string{[]string{"cbor", "cbor", "pb"}[i%3]}}) // the legacy codec names blocks by CIDv0 identifiers
+		Codecs:   []string{[]string{"cbor", "cbor", "pb"}[i%3]}, // the legacy codec names blocks by CIDv0 identifiers
+		Failures: i%2 == 1})                                     // refused merges / appends in the pair's past: they must have left nothing behind
 	run.Count("pairs_codec_"+h.Codec, 1)
 	// choose pair
 	a := rng.Intn(h.Replicas)
